@@ -3,6 +3,7 @@
   C20 - (shares the model) prophyc output is a deterministic function of its inputs.
 -/
 import ProphyModel.Files
+import ProphyModel.Lemmas.FilesOrder
 namespace Prophy.C16
 open Prophy Prophy.Files
 
@@ -54,5 +55,38 @@ def exFs : List File := [
 example : (match processMains exFs ["/p/i1", "/p/i2"] [⟨"/p", "main"⟩] [] with
     | .ok [(_, r)] => r.visible == ["A", "B", "M"] && r.parsed.map (·.leaf) == ["main", "a", "base", "b"]
     | _ => false) = true := by decide
+
+
+/-- FULL STATEMENT (model level): in one prophyc run no file is parsed twice, whatever the include
+    graph and the inputs (diamonds, repeated includes, files that are both inputs and includes) -/
+theorem C16_parsed_once (fs : List File) (inc : List String) (ms : List FileId) (cache : Cache)
+    (rs : List (FileId × Result)) (h : processMains fs inc ms cache = .ok rs) :
+    (rs.flatMap (·.2.parsed)).Nodup := parsed_once_p15 fs inc ms cache rs h
+
+/-- what a file exports and sees does not depend on what was processed before it: with any cache
+    whose finished entries are correct, the result is that of a fresh run -/
+theorem C16_cache_irrelevant (fs : List File) (inc : List String) (cache : Cache) (f : FileId) (n n0 : Nat)
+    (r r0 : Result) (c' c0 : Cache) (hs : Cache.sound_p15 fs inc cache)
+    (h : processFile fs n (f.dir :: inc) cache f = .ok (r, c'))
+    (h0 : processFile fs n0 (f.dir :: inc) [] f = .ok (r0, c0)) :
+    r.exports = r0.exports ∧ r.visible = r0.visible :=
+  let ⟨a, b, _, _⟩ := processFile_cache_irrelevant_p15 hs h h0; ⟨a, b⟩
+
+/-- every acyclic include graph whose includes all resolve compiles (the rank is weighted by the
+    position of the include: the model spends fuel per include as well as per level; the real code
+    has no such bound) -/
+theorem C16_acyclic_succeeds (fs : List File) (inc : List String) (R : FileId → Prop) (rank : FileId → Nat)
+    (hR : Ranked_p15 fs inc R rank) (ms : List FileId)
+    (hms : ∀ f ∈ ms, R f ∧ rank f < 4 * fs.length + 4) : ∃ rs, processMains fs inc ms [] = .ok rs :=
+  processMains_success_p15 fs inc R rank hR ms hms
+
+/-- C20 (determinism, model level): for two runs over the same files whose input lists are
+    permutations of each other, every input file gets the same exports and the same visible names -
+    the order of the command line does not matter -/
+theorem C20_order_independent (fs : List File) (inc : List String) (ms ms' : List FileId)
+    (rs rs' : List (FileId × Result))
+    (h : processMains fs inc ms [] = .ok rs) (h' : processMains fs inc ms' [] = .ok rs') (hperm : ms.Perm ms') :
+    ∀ f r r', (f, r) ∈ rs → (f, r') ∈ rs' → r.exports = r'.exports ∧ r.visible = r'.visible :=
+  order_independent_p15 fs inc ms ms' rs rs' h h' hperm
 
 end Prophy.C16
